@@ -384,6 +384,7 @@ def install():
         return property(get)
     aa.AnyArray.real = _part("real")
     aa.AnyArray.imag = _part("imag")
+    proxy_np(aa)   # np.isreal/np.iscomplex/np.isscalar on symbolic scalars (AnyArray.full)
 
 
 def proxy_np(module, extra=None):
